@@ -19,7 +19,7 @@ SETUP_KEY = "api"
 PID = "C12"
 THEOREMS = ["C12_invariant", "C12_invariant_base", "C12_variance_fixpoint", "C12_alias_invariant",
             "C12_not_send_sync", "C12_callbacks", "C12_sub_preserves_brand", "C12_static_only",
-            "C12_no_unknown_syntax"]
+            "C12_impl_args_keep_brand", "C12_no_unknown_syntax"]
 
 # probe item "variance:<Type>:.." -> (kind, name in the model's tables)
 VARIANCE_TYPES = {
@@ -51,6 +51,8 @@ def _report():
         ("callbacks", "map (fun f => (fs_name f, sb (callback_ok decls f))) (callback_fns arena_fns)"),
         ("other_sources", "map (fun f => (fs_name f, sb (no_other_context_source decls f))) arena_fns"),
         ("static_only", "map (fun i => (ctor_name (i_self i), sb (collect_impl_static_ok i))) (filter is_guarded_collect_impl collect_impls)"),
+        ("impl_brand", "map (fun i => (i_trait i ++ \" for \" ++ ctor_name (i_self i) ++ \" (\" ++ i_file i ++ \")\", sb (impl_args_brand_ok i))) "
+                       "(filter (fun i => match impl_arg_lts i with [] => false | _ => true end) impls)"),
         ("unknown", "map (fun s => (s, \"\")) GenTypes.unknown_items"),
     ]
     return sf.model_report("c12_report", evals)
@@ -124,6 +126,10 @@ def run(chk, tier, seed):
     for k, v in rep.get("static_only", []):
         if v != "true":
             offenders.append("Collect impl for %s<T> lacks T: 'static" % k)
+    for k, v in rep.get("impl_brand", []):
+        if v != "true":
+            offenders.append("impl %s: a trait argument mentions a lifetime parameter the self type does not (the conversion can re-brand a pointer)" % k)
+    chk.cov["model_impl_brand"] = rep.get("impl_brand", [])
     for k, _ in rep.get("unknown", []):
         offenders.append("unclassified syntax: " + k)
     chk.cov["offending_items"] = offenders
